@@ -175,9 +175,10 @@ def r2(idx, rep):
             bad = bad or f"_deref_paths_name({name!r}) = {ps[0].result}, expected {want!r}"
     rep.check(bad is None, "R2", f"{fd.file}::ResultSerializer._deref_paths_name table", bad or "", K.where(fd, fd.node))
     # ResultsManager.get_run_time_str passes the group name and the run time through
-    fg = idx.method("ResultsManager", "get_run_time_str")
-    src = unparse(fg.node)
-    rep.check("get_run_dir(paths_name=name, run_time=run_time)" in src, "R2", f"{fg.file}::ResultsManager.get_run_time_str forwards", src[-200:], K.where(fg, fg.node))
+    calls = []
+    fg, ps = K.sym_result(idx, "ResultsManager", "get_run_time_str", args={"name": "P", "run_time": "T"},
+                          handlers={"ResultSerializer": lambda i, c, r, a, k: Obj("rs"), "rs.get_run_dir": lambda i, c, r, a, k: (calls.append(dict(k)), "DIR")[1]})
+    rep.check(len(ps) == 1 and ps[0].result == ("return", "DIR") and calls == [{"paths_name": "P", "run_time": "T"}], "R2", f"{fg.file}::ResultsManager.get_run_time_str forwards", f"{calls}", K.where(fg, fg.node))
 
 
 def _str_const(idx, fi, node):
@@ -313,13 +314,16 @@ def r4(idx, rep):
     fl = idx.method("CsvLineSpooler", "_instance_data_file_path")
     w = [unparse(v) for t, v, st in K.stores_in(fl.node) if unparse(t) == "self.path"]
     rep.check(w == ["self.result.data_file_path"], "R4", f"{fl.file}::CsvLineSpooler data file is the result's data_file_path", f"{w}", K.where(fl, fl.node))
-    fr = idx.method("ResultRegistrar", "result_path")
-    src = unparse(fr.node)
-    rep.check("get_instance_dir(run_dir=self.result.run_dir, identity=self.result.identity_or_index)" in src, "R4", f"{fr.file}::ResultRegistrar.result_path is the instance dir", "", K.where(fr, fr.node))
-    fd = idx.method("Result", "data_file_path")
-    rep.check("os.path.join(self.instance_dir, 'data.csv')" in unparse(fd.node), "R4", f"{fd.file}::Result.data_file_path", unparse(fd.node)[-120:], K.where(fd, fd.node))
-    fi2 = idx.method("Result", "instance_dir")
-    rep.check("get_instance_dir(run_dir=self.run_dir, identity=self.identity_or_index)" in unparse(fi2.node), "R4", f"{fi2.file}::Result.instance_dir", "", K.where(fi2, fi2.node))
+    gid = lambda i, c, r, a, k: f"{k.get('run_dir', a[0] if a else None)}/{k.get('identity', a[1] if len(a) > 1 else None)}"
+    h = dict(K.JOIN)
+    h.update({"self.result_serializer.get_instance_dir": gid, "os.path.exists": lambda i, c, r, a, k: True})
+    fr, ok, d = K.returns(idx, "ResultRegistrar", "result_path", "RUN/one", handlers=h, store={"self.result.run_dir": "RUN", "self.result.identity_or_index": "one"})
+    rep.check(ok, "R4", f"{fr.file}::ResultRegistrar.result_path is the instance dir", d, K.where(fr, fr.node))
+    fd, ok, d = K.returns(idx, "Result", "data_file_path", "RUN/one/data.csv", handlers=K.JOIN, store={"self.instance_dir": "RUN/one"})
+    rep.check(ok, "R4", f"{fd.file}::Result.data_file_path", d, K.where(fd, fd.node))
+    h2 = {"ResultSerializer": lambda i, c, r, a, k: Obj("rs"), "rs.get_instance_dir": gid}
+    fi2, ok, d = K.returns(idx, "Result", "instance_dir", "RUN/one", handlers=h2, store={"self.run_dir": "RUN", "self.identity_or_index": "one"})
+    rep.check(ok, "R4", f"{fi2.file}::Result.instance_dir", d, K.where(fi2, fi2.node))
 
 
 def _roots(e):
